@@ -98,6 +98,12 @@ func c12(c *Ctx) {
 	gate("participation", "nil only after participation != 0", "an update nobody signed can pass", any(func(f core.Fact) bool {
 		return core.CmpFact(f, func(op token.Token, x, y ssa.Value) bool {
 			k, isC := core.ConstInt(y)
+			if !isC && fromField(x, "SyncCommitteeBits") && (op == token.GEQ || op == token.GTR) {
+				// a configurable minimum: whatever it holds, it is at least one participant
+				if rg := p.RangeOf(y, nil); rg.HasLo && ((op == token.GEQ && rg.Lo >= 1) || (op == token.GTR && rg.Lo >= 0)) {
+					return true
+				}
+			}
 			return isC && fromField(x, "SyncCommitteeBits") && ((op == token.NEQ && k == 0) || (op == token.GTR && k == 0) || (op == token.GEQ && k == 1))
 		})
 	}))
@@ -267,10 +273,30 @@ func c12(c *Ctx) {
 			r.Fail("R1.signature-committee", vname+" participating-keys", p.Pos(sigCall.Pos()), "the keys are not selected by a participation filter")
 		} else {
 			pa := pkCall.Call.Args
-			okBits := fromField(pa[len(pa)-1], "SyncCommitteeBits")
+			// operands by type (a size hint or a logger may be passed along)
+			var bitsArg, commArg ssa.Value
+			for _, a := range pa {
+				t := a.Type()
+				if pt, isP := t.Underlying().(*types.Pointer); isP {
+					t = pt.Elem()
+				}
+				switch core.TypeName(t) {
+				case "SyncCommitteeBits":
+					bitsArg = a
+				case "SyncCommittee":
+					commArg = a
+				}
+			}
+			if bitsArg == nil {
+				bitsArg = pa[len(pa)-1]
+			}
+			if commArg == nil {
+				commArg = pa[len(pa)-2]
+			}
+			okBits := fromField(bitsArg, "SyncCommitteeBits")
 			r.Check(okBits, "R1.signature-committee", vname+" keys-by-same-bits", p.Pos(pkCall.Pos()), "keys are selected by the update's participation bits", "the keys are selected by a bit vector other than the update's participation bits")
 			// committee = phi(current when sig period == store period, next otherwise)
-			comm := pa[len(pa)-2]
+			comm := commArg
 			var ph *ssa.Phi
 			core.Derives(comm, func(v ssa.Value) bool {
 				if x, ok := v.(*ssa.Phi); ok && ph == nil {
@@ -380,6 +406,15 @@ func c12(c *Ctx) {
 				continue
 			}
 			core.Calls(fn, func(ci ssa.CallInstruction) {
+				// the dependency's own named constant for the same four bytes
+				if strings.HasSuffix(core.CalleeID(ci), "zrnt/eth2/beacon/common.ComputeDomain") && len(ci.Common().Args) > 0 {
+					if core.Derives(ci.Common().Args[0], func(v ssa.Value) bool {
+						g, isG := v.(*ssa.Global)
+						return isG && g.Name() == "DOMAIN_SYNC_COMMITTEE" && g.Pkg != nil && strings.HasSuffix(g.Pkg.Pkg.Path(), "zrnt/eth2/beacon/common")
+					}, core.DeriveOpts{}) {
+						okDom = true
+					}
+				}
 				if strings.HasSuffix(core.CalleeID(ci), "hexutil.MustDecode") {
 					if cst, ok := ci.Common().Args[0].(*ssa.Const); ok && strings.Trim(cst.Value.ExactString(), "\"") == "0x07000000" {
 						if len(core.CallsTo(fn, "github.com/protolambda/zrnt/eth2/beacon/common.ComputeDomain")) > 0 {
@@ -539,6 +574,7 @@ func c12(c *Ctx) {
 		}
 		r.Check(found, "R2.other-constants", aname+" two-thirds", p.Pos(A.Pos()), "majority = bits*3 >= 512*2 (>= 342 of 512)", "the two-thirds participation test is missing or weaker than 342 of 512")
 	}
+	errorsExamined(c, "R4.errors-examined", "light client", []string{"beacon"}, "(*beacon.ConsensusLightClient).Verify", "(*beacon.ConsensusLightClient).Apply", "(*beacon.ConsensusLightClient).ProcessUpdate", "beacon.VerifySyncCommitteeSignature", "beacon.Is")
 }
 
 type storeWrite struct {
